@@ -399,3 +399,17 @@ template <class T, size_t M, size_t K, size_t N> void op_lazy_matmul_div(Ctx &c)
 }
 } // namespace memsim
 
+namespace memsim {
+template <class T, size_t... D> void op_minmax(Ctx &c) {
+    auto &a = c.own<Tensor<T, D...>>(0, false); TensorMap<T, D...> m(c.buf<T>(1, prod_<D...>::value, false));
+    T r[4] = {0, 0, 0, 0};
+    c.run([&] { r[0] = min(a); r[1] = max(a); r[2] = min(m); r[3] = max(m + m); });
+    c.retb(r, sizeof r);
+}
+template <class T, size_t M, size_t N, size_t P, size_t Q> void op_permute4(Ctx &c) {
+    auto &a = c.own<Tensor<T, M, N, P, Q>>(0, false); auto &o = c.own<Tensor<T, Q, P, N, M>>(1, true); auto &o2 = c.own<Tensor<T, N, M, Q, P>>(2, true);
+    enum { i, j, k, l };
+    c.run([&] { o = permute<Index<l, k, j, i>>(a); o2 = permutation<Index<j, i, l, k>>(a); });
+}
+} // namespace memsim
+
